@@ -10,7 +10,7 @@ LEVEL = "proof"
 LEAN_MODULES = ["OsmoVerif.Props.C16"]
 LEAN_MODEL_MODULES = ["OsmoVerif.Model.Codec", "OsmoVerif.Spec.Codec", "OsmoVerif.Lemmas.CodecInt",
                       "OsmoVerif.Lemmas.CodecVals", "OsmoVerif.Lemmas.CodecBits", "OsmoVerif.Lemmas.CodecRT",
-                      "OsmoVerif.Lemmas.CodecDI", "OsmoVerif.Lemmas.CodecErr", "OsmoVerif.Lemmas.CodecTyped"]
+                      "OsmoVerif.Lemmas.CodecDI", "OsmoVerif.Lemmas.CodecErr", "OsmoVerif.Lemmas.CodecTyped", "OsmoVerif.Lemmas.CodecExact"]
 ASSUMPTIONS = [
     "theorems are about OsmoVerif.Model.Codec: a hand model of codec.py (Field/Buf/Spare/Uint family/BitFieldSet/BitField/Envelope/Envelope.F/Sequence/Sequence.F) over a first-order definition language; get_pres/get_len lambdas are restricted to the first-order family always|flag|not flag and fixed|rest|value of a field|table on a field|threshold on the remaining length",
     "model tied to /repo by differential execution: the harness builds the REAL codec objects for every generated definition and compares bytes / decoded value trees / exception classes with the compiled Lean driver (well-formed and deliberately ill-formed definitions, in-range, boundary, over-wide, truncated, extended and corrupted inputs)",
@@ -19,8 +19,8 @@ ASSUMPTIONS = [
     "Sequence.from_bytes on an item that can decode zero octets does not terminate (F13): excluded by WF, confirmed on the real code with a timer, recorded as known finding",
 ]
 MANIFEST = {
-    "text": "Lean 4 theorems over a definition language mirroring codec.py, for EVERY well-formed definition at any nesting depth and any number of sequence items: dec_enc (decode(encode v) = v, encoding has the declared length), enc_dec (whatever decodes re-encodes to canonical octets of the consumed length that decode to the same value), length_exact and trailing_rejected, errors_own (only DecodeError/EncodeError; no ProtocolError, no hang), bitfield_trunc, termination of the sequence loop; WF and InRange are decidable predicates with non-vacuity examples. The model is compared with the real codec objects built from the same random definitions; an independent oracle checks the property itself (round trip, canonical re-encode, exact consumption, error classes, documented bit-field layout) on the real code.",
-    "note": "trusted: Lean kernel (+propext, Classical.choice, Quot.sound), the differential harness (harness/py/codec_harness.py, lib/codecdef.py builders), the generators (lib/codecgen.py); modelled not verified: CPython int/bytes/dict primitives as written in Model/Codec.lean; callbacks outside the first-order family are not covered; enc_dec speaks about canonical octets (spare bits/fillers are normalised), byte-exact equality of the re-encoding for spare-free definitions is checked by the oracle on the real code, not proved",
+    "text": "Lean 4 theorems over a definition language mirroring codec.py, for EVERY well-formed definition at any nesting depth and any number of sequence items: dec_enc (decode(encode v) = v, encoding has the declared length), enc_dec (whatever decodes re-encodes to canonical octets of the consumed length that decode to the same value), length_exact and trailing_rejected, enc_dec_exact (byte-exact re-encoding for definitions without spare parts), errors_own (only DecodeError/EncodeError; no ProtocolError, no hang; with length references to non-negative integer fields decoding ANY input is ok-or-DecodeError), bitfield_trunc, termination of the sequence loop; WF and InRange are decidable predicates with non-vacuity examples. The model is compared with the real codec objects built from the same random definitions; an independent oracle checks the property itself (round trip, canonical re-encode, exact consumption, error classes, documented bit-field layout) on the real code.",
+    "note": "trusted: Lean kernel (+propext, Classical.choice, Quot.sound), the differential harness (harness/py/codec_harness.py, lib/codecdef.py builders), the generators (lib/codecgen.py); modelled not verified: CPython int/bytes/dict primitives as written in Model/Codec.lean; callbacks outside the first-order family are not covered; on the encoding side `unmodelled` (a value of the wrong Python type) is not excluded by a typing hypothesis",
     "technique": "Lean 4 proof by induction over a nested inductive definition language (well-founded recursion on sizeOf for the nesting, list induction for envelopes and sequences) + differential correspondence on generated definitions",
     "design_ref": "DESIGN.md section 5 C16",
 }
